@@ -216,7 +216,7 @@ impl CGen {
                 4 => format!("{h}{}", u.index),
                 5 => format!("{h}#"),
                 6 => format!("{h}#4294967296"),
-                7 => format!("{}#1", &h[1..]),
+                7 => format!("{}#1", h.get(1..).unwrap_or("")),
                 _ => format!("{h}#-1"),
             };
             return E::String(text);
